@@ -883,9 +883,13 @@ def _make_injection(inj, obs):
                 if st.done:
                     obs['inject_skipped'] = 'victim already finished'
                     return
+                try:
+                    phase, vtask = _victim_phase(S, st), _victim_task(S, st)
+                except Exception as e:  # noqa: a classification problem of the harness must not reach the simulated thread
+                    phase, vtask = 'unclassified:' + repr(e)[:80], None
                 obs['injected'] = {'kind': 'sigkill', 'victim': st.role, 'instance': ordinal, 'point': st.points, 't': round(S.now - S.t0, 6),
-                                   'in_user_function': bool(getattr(st, 'in_user', 0)), 'victim_phase': _victim_phase(S, st),
-                                   'victim_task': _victim_task(S, st), 'opi': len(obs.get('ops', [])) - 1}
+                                   'in_user_function': bool(getattr(st, 'in_user', 0)), 'victim_phase': phase,
+                                   'victim_task': vtask, 'opi': len(obs.get('ops', [])) - 1}
                 S.rec('inject-sigkill', st.role)
                 S.kill_proc(st.proc)
         elif kind == 'sigint':
@@ -907,7 +911,8 @@ def _victim_phase(S, st):
         return 'in_user'
     if getattr(st, 'in_hook', None):
         return st.in_hook + '_announced'
-    for ev in reversed(S.trace):
+    for pos in range(len(S.trace) - 1, -1, -1):
+        ev = S.trace[pos]
         if ev[0] < getattr(st, 'start_step', 0):
             break
         if ev[2] != st.role:
@@ -920,15 +925,16 @@ def _victim_phase(S, st):
             return ev[4] + '_ran'       # inside or just after worker_init / worker_exit
         if ev[3] == 'q.task_done':
             # what was acknowledged: the apply pill (its task is still to come / in hand) or a task (then the worker is between tasks)
-            for e2 in reversed(S.trace[:S.trace.index(ev)]):
+            for p2 in range(pos - 1, -1, -1):
+                e2 = S.trace[p2]
                 if e2[2] == st.role and e2[3] == 'q.get' and isinstance(e2[4], str) and e2[4].startswith('tq['):
-                    return 'apply_pill_taken' if e2[5] == '\x03' else 'acked'
+                    return 'apply_pill_taken' if isinstance(e2[5], str) and e2[5] == '\x03' else 'acked'
             return 'acked'
         if ev[3] == 'q.put' and ev[4] == 'rq':
             return 'results_sent'
         if ev[3] == 'q.get' and isinstance(ev[4], str) and ev[4].startswith('tq['):
             item = ev[5]
-            if item == '\x03':
+            if isinstance(item, str) and item == '\x03':
                 return 'apply_pill_taken'
             if isinstance(item, tuple) and len(item) == 2 and isinstance(item[1], tuple) and item[1] and callable(item[1][0]):
                 return 'apply_task_taken'
@@ -952,7 +958,7 @@ def _victim_task(S, st):
                 item = ev[5]
                 if isinstance(item, tuple) and len(item) == 2 and isinstance(item[1], tuple) and item[1] and callable(item[1][0]):
                     return item[1][1][0][0]
-                if item == '\x03':
+                if isinstance(item, str) and item == '\x03':
                     # the task is the next entry of that queue
                     for e2 in S.trace:
                         if e2[3] == 'q.put' and e2[4] == ev[4] and e2[0] > 0:
